@@ -74,14 +74,19 @@ func convertToParagraph(data reflect.Value) (*Paragraph, error) {
 		return &para, nil
 	}
 
+	/* the embedded Paragraph first, wherever the struct declares it: the
+	 * members walked below are checked against it */
+	for i := 0; i < data.NumField(); i++ {
+		if fieldType := data.Type().Field(i); fieldType.Anonymous && fieldType.Type == paragraphType {
+			foundParagraph = data.Field(i).Interface().(Paragraph)
+		}
+	}
+
 	for i := 0; i < data.NumField(); i++ {
 		field := data.Field(i)
 		fieldType := data.Type().Field(i)
 
 		if fieldType.Anonymous {
-			if fieldType.Type == paragraphType {
-				foundParagraph = field.Interface().(Paragraph)
-			}
 			continue
 		}
 
